@@ -16,12 +16,12 @@ def build(ctx):
 def seq(ctx, name, layer, k, nq, sz, tier, timeout=600):
     lname = ['uMPMC_Ptr_Queue init(%d,%d)' % (nq, sz), 'uSWSR_Ptr_Buffer(%d)' % sz, 'SWSR_Ptr_Buffer(%d)' % sz][layer]
     defs = ['K=%d' % k, 'LAYER=%d' % layer, 'NQ=%d' % nq, 'SZ=%d' % sz, 'VF_SEQ_LEN=%d' % max(nq, 2)] + (['VF_MA_SEQ_MASK=6'] if layer == 0 else [])
-    ctx.add(Harness(name, VERIF + '/harness/C30_seq.c', defines=defs, unwind=3,
+    ctx.add(Harness(name, VERIF + '/harness/C30_seq.c', defines=defs, unwind=3, flags=['--paths', 'lifo'],
                     unwindset=['main.0:%d' % (k + 1), 'x_llvm_2ectpop_2ei32.0:33', '_ZN2ff15SWSR_Ptr_Buffer5resetEb.0:33', '_ZN2ff15uMPMC_Ptr_Queue4initEmm.0:%d' % (nq + 1),
                                '_ZN2ff10BufferPoolC2Eibm.0:34', '_ZN2ffL12nextPowerOf2Em.0:8'],
                     timeout=timeout, mem_gb=16, functions=FUN, stubs=STUBS, tier=tier,
                     bounds='every sequence of %d push/pop operations on %s, sequential (one thread); payloads = addresses of distinct static cells' % (k, lname),
-                    desc='FIFO, no loss/duplication, pop reports empty iff empty (sequential exhaustive)'))
+                    desc='FIFO, no loss/duplication, pop reports empty iff empty (sequential exhaustive; CBMC path-wise symbolic execution: one solver query per operation sequence)'))
 
 def run(ctx):
     kf = known_findings('C30'); defs = kf_defines(kf)
